@@ -110,8 +110,9 @@ StepB(e) ==
 StepE(e) ==
   /\ v' = [v EXCEPT
             !.C17 = F_(@, IndexBad(e), "C17:index"),
-            !.C16 = F_(F_(@, \E m \in 0..(NM - 1) : e.runs[m + 1] # ExpRun(m, e.t, e.s), "C16:running-flags-at-step-end"),
-                        e.m = 0 /\ e.exec # (Hd.sess[e.s + 1][3] /\ ~AnyHalted(e.t, e.s)), "C16:execution-switch-at-step-end")]
+            \* (how matching is suppressed during a halt - the session's switch in this implementation - is not part of the
+            \*  property: only Market.is_running and the fills are judged)
+            !.C16 = F_(@, \E m \in 0..(NM - 1) : e.runs[m + 1] # ExpRun(m, e.t, e.s), "C16:running-flags-at-step-end")]
   /\ Unch
 
 Ret(e) ==
@@ -204,6 +205,8 @@ Step ==
        [] e.k = "acc" -> Acc(e)
        [] e.k = "round" -> Round(e)
        [] e.k = "abort" -> Abort(e)
+       [] e.k = "dupreg" ->      \* a component registered a second time: refused (the index values that follow are judged as ever)
+            /\ v' = [v EXCEPT !.C17 = F_(@, ~e.refused, "C17:duplicate-component-accepted")] /\ Unch
        [] OTHER -> UNCHANGED <<now, cs, F, fired, reqs, cnt, hs, accSeen, early, v>>
 
 Done == l = Len(Ev) + 1
